@@ -445,6 +445,18 @@ def value_on_path(body, path, local=0, upto=None):
                     pl = rv["a"].get("move") or rv["a"].get("copy")
                     if pl is not None and not pl["proj"]:
                         return ("un", "Not", val(pl["l"], i - 1, hops + 1))
+                if "agg" in rv and rv["agg"]["kind"] in ("adt", "tuple") and rv["ops"]:
+                    # operands that are plain locals are read along the path as well
+                    t = body.rvalue_term(rv)
+                    ops2 = []
+                    for k, op in enumerate(rv["ops"]):
+                        pl = op.get("move") or op.get("copy")
+                        if pl is not None and not pl["proj"]:
+                            v2 = val(pl["l"], i - 1, hops + 1)
+                            ops2.append(v2 if v2 is not None else t[5][k])
+                        else:
+                            ops2.append(t[5][k])
+                    return (t[0], t[1], t[2], t[3], t[4], ops2)
             return body.rvalue_term(rv)
         return body.local_term(cur) if hops else None
 
